@@ -499,6 +499,35 @@ theorem interrupted_rows_preserved (tbl : Table) (s : RStore) (hd : wfData s.dat
     exact cell_preserved d _ t c hd
       (fun st hst => hrem st (stmtsOf_subset tbl _ st (List.mem_of_mem_take hst))) r hr v hv
 
+/-- interrupted open: old values are found under the names computed from the statements that were durable -/
+theorem interrupted_values_tracked (tbl : Table) (s : RStore) (hd : wfData s.data = true) (t : String) (j : Nat) :
+    ∃ f : Row → Row, rowsOf (interruptedR tbl s j).1.data t = (rowsOf s.data t).map f ∧
+      ∀ c c', logTrack t (interruptedDurableLog tbl s j) c = some c' →
+        ∀ r ∈ rowsOf s.data t, ∀ v, cellOf r c = some v → cellOf (f r) c' = some v := by
+  obtain ⟨d, rev⟩ := s
+  simp only at hd
+  cases rev with
+  | noTable =>
+    refine ⟨id, by simp [interruptedR, readRevisionR, initRevisionTableR, RDb.work, RDb.ddl, RDb.dml, RDb.close], ?_⟩
+    intro c c' ht r _ v hv
+    simp only [interruptedDurableLog, logTrack, Option.some.injEq] at ht
+    subst ht
+    exact hv
+  | empty =>
+    refine ⟨logOnRow t (runStmtsR d ((stmtsOf (getSteps tbl none)).take j)).2,
+      by simpa [interruptedR, readRevisionR, RDb.work, RDb.ddl, RDb.close] using rowsOf_runStmtsR d _ t, ?_⟩
+    intro c c' ht r hr v hv
+    have ht' : logTrack t (runStmtsR d ((stmtsOf (getSteps tbl none)).take j)).2 c = some c' := by
+      simpa [interruptedDurableLog, interruptedR, readRevisionR, RDb.work, RDb.ddl, RDb.close] using ht
+    exact cell_tracked d _ t c c' hd r hr v hv ht'
+  | row rid =>
+    refine ⟨logOnRow t (runStmtsR d ((stmtsOf (getSteps tbl rid)).take j)).2,
+      by simpa [interruptedR, readRevisionR, RDb.work, RDb.ddl, RDb.close] using rowsOf_runStmtsR d _ t, ?_⟩
+    intro c c' ht r hr v hv
+    have ht' : logTrack t (runStmtsR d ((stmtsOf (getSteps tbl rid)).take j)).2 c = some c' := by
+      simpa [interruptedDurableLog, interruptedR, readRevisionR, RDb.work, RDb.ddl, RDb.close] using ht
+    exact cell_tracked d _ t c c' hd r hr v hv ht'
+
 /-- an interrupted open followed by any history of opens: still the old rows, old values unchanged -/
 theorem interrupted_then_opens_rows_preserved (tbl : Table) (orm : Schema) (hw : tbl.WF) (hne : tbl.steps ≠ [])
     (s : RStore) (hd : wfData s.data = true) (t : String) (j : Nat) (c0 : Bool) (h : List Bool) :
